@@ -80,10 +80,13 @@ impl FunctionRegistry {
         self.signatures.get(name)
     }
 
-    /// Merge another registry into this one
+    /// Merge another registry into this one.
+    ///
+    /// Signatures already present win: a module's own function is never replaced by a same-named function of a module
+    /// merged later (names are module-scoped; an importer that declares `helper` calls its own `helper`).
     pub fn merge(&mut self, other: &FunctionRegistry) {
         for (name, sig) in &other.signatures {
-            self.signatures.insert(name.clone(), sig.clone());
+            self.signatures.entry(name.clone()).or_insert_with(|| sig.clone());
         }
     }
 }
